@@ -2637,8 +2637,13 @@ def ensure_unique_bound_variables(  # noqa: C901
         bound_variable = formula.bound_variable
         inner_formula = formula.inner_formula
         if bound_variable.name in used_names:
+            # The new name must also be fresh for the variables bound inside the
+            # quantifier, e.g., by match expressions.
             fresh_variable = fresh_bound_variable(
-                used_names, bound_variable, add=False
+                set(used_names)
+                | {var.name for var in VariablesCollector.collect(formula)},
+                bound_variable,
+                add=False,
             )
             inner_formula = inner_formula.substitute_variables(
                 {bound_variable: fresh_variable}
